@@ -55,10 +55,24 @@ func RunGraph(run *report.Run, sys *explore.System, bounds []explore.Bounds, min
 			completed = res
 		}
 		unconfirmed := 0
-		for _, v := range res.Violations {
-			if !addConfirmed(run, sys, v) {
+		for _, cands := range res.Candidates {
+			ok := false
+			for _, v := range cands {
+				if addConfirmed(run, sys, v) {
+					ok = true
+					break
+				}
+			}
+			if !ok {
 				unconfirmed++
 			}
+		}
+		if unconfirmed > 0 && len(run.Viols) > 0 {
+			// some signatures reproduced sequentially: report those; the others were artefacts of discarded forks on a tree
+			// that keeps state outside the store
+			fmt.Printf("[%s] %d further fork-mode signatures did not reproduce sequentially and are not reported\n", sys.ID, unconfirmed)
+			run.Coverage["fork_mode_unsound_for_this_tree"] = true
+			unconfirmed = 0
 		}
 		if unconfirmed > 0 {
 			// The tree under test keeps state outside the store (fork + discard left traces): fork-based exploration is not
@@ -68,7 +82,8 @@ func RunGraph(run *report.Run, sys *explore.System, bounds []explore.Bounds, min
 			nb.NoFork = true
 			res2 := explore.Run(sys, nb)
 			fmt.Printf("[%s] no-fork bounds depth=%d V=%d: states=%d transitions=%d cap_hit=%v wall=%.1fs violations=%d\n", sys.ID, nb.Depth, nb.V, res2.States, res2.Transitions, res2.CapHit, res2.WallS, len(res2.Violations))
-			for _, v := range res2.Violations {
+			for _, cands := range res2.Candidates {
+				v := cands[0]
 				if !addConfirmed(run, sys, v) {
 					fmt.Fprintf(os.Stderr, "HARNESS ERROR: violation %q found by sequential exploration does not reproduce\n", v.Sig)
 					world.CleanScratch()
